@@ -101,3 +101,11 @@ def exists_keys(f):
     n = f.__code__.co_argcount
     import itertools
     return any(f(*xs) for xs in itertools.product((0, 1, 0xffffffff, 0x80000000, 0x0000ffff), repeat=n))
+
+
+def opaque(fn):
+    """Spec function whose body is hidden from the solver inside quantified clauses: symbolically a
+    call is an uninterpreted function of the scalar leaves of its arguments, and the definition is
+    supplied as a separate fact for every term it was called on (DESIGN 0.2).  Natively: the function."""
+    fn.__opaque__ = True
+    return fn
